@@ -1393,44 +1393,90 @@ func ruleSliceGrammar(c *Ctx) *RuleResult {
 	for _, caller := range allFuncs(c.SLib) {
 		for _, call := range callsTo(caller, fn) {
 			r.Instances++
-			ok := false
-			blk := call.Block()
-			for _, b := range caller.Blocks {
+			// forward must-fact "a colon was seen at lookahead 0 or 1 and the
+			// cursor has not moved since": set on the edge of a lookahead(k) ==
+			// tColon test on which the test holds (true edge of ==, false edge
+			// of !=), cleared by any cursor-moving call, joined by AND.
+			colonEdge := func(b *ssa.BasicBlock, si int) bool {
 				ifi := blockIf(b)
 				if ifi == nil {
-					continue
+					return false
 				}
-				bo, isBo := ifi.Cond.(*ssa.BinOp)
-				if !isBo || bo.Op != token.EQL {
-					continue
+				cond := ifi.Cond
+				neg := false
+				if u, isU := cond.(*ssa.UnOp); isU && u.Op == token.NOT {
+					cond, neg = u.X, true
 				}
-				k, isK := constInt(bo.Y)
-				la, isCall := bo.X.(*ssa.Call)
+				bo, isBo := cond.(*ssa.BinOp)
+				if !isBo || (bo.Op != token.EQL && bo.Op != token.NEQ) {
+					return false
+				}
+				x, y := bo.X, bo.Y
+				if _, isK := constInt(x); isK {
+					x, y = y, x
+				}
+				k, isK := constInt(y)
+				la, isCall := x.(*ssa.Call)
 				if !isK || !isCall || k != c.tok("tColon") || staticCallee(la) != c.A.Lookahead {
-					continue
+					return false
 				}
-				// the call's block is reached only through true edges of such tests
-				if b.Succs[0] == blk {
-					ok = true
+				holds := 0
+				if bo.Op == token.NEQ {
+					holds = 1
+				}
+				if neg {
+					holds = 1 - holds
+				}
+				return si == holds
+			}
+			moves := func(b *ssa.BasicBlock, upto ssa.Instruction) bool {
+				for _, in := range b.Instrs {
+					if in == upto {
+						return false
+					}
+					if cl, isCall := in.(*ssa.Call); isCall {
+						sc := staticCallee(cl)
+						if sc == nil {
+							if _, isB := cl.Call.Value.(*ssa.Builtin); isB {
+								continue
+							}
+							return true
+						}
+						if c.cursorMover(sc) {
+							return true
+						}
+					}
+				}
+				return false
+			}
+			in := map[*ssa.BasicBlock]bool{}
+			for _, b := range caller.Blocks {
+				in[b] = b != caller.Blocks[0]
+			}
+			for changed := true; changed; {
+				changed = false
+				for _, b := range caller.Blocks {
+					if b == caller.Blocks[0] {
+						continue
+					}
+					v := true
+					for _, pb := range b.Preds {
+						for si, sb := range pb.Succs {
+							if sb != b {
+								continue
+							}
+							if !(colonEdge(pb, si) || (in[pb] && !moves(pb, nil))) {
+								v = false
+							}
+						}
+					}
+					if v != in[b] {
+						in[b] = v
+						changed = true
+					}
 				}
 			}
-			// and every predecessor of the call's block is such a true edge
-			for _, pb := range blk.Preds {
-				ifi := blockIf(pb)
-				if ifi == nil || pb.Succs[0] != blk {
-					ok = false
-					continue
-				}
-				bo, isBo := ifi.Cond.(*ssa.BinOp)
-				if !isBo || bo.Op != token.EQL {
-					ok = false
-					continue
-				}
-				la, isCall := bo.X.(*ssa.Call)
-				if k, isK := constInt(bo.Y); !isK || !isCall || k != c.tok("tColon") || staticCallee(la) != c.A.Lookahead {
-					ok = false
-				}
-			}
+			ok := in[call.Block()] && !moves(call.Block(), call)
 			key := "slice-entry|" + fname(caller)
 			if ok {
 				r.ok(key, c.pos(call.Pos()), fname(caller), "parseSliceExpression is entered only when a colon is at lookahead 0 or 1")
